@@ -238,9 +238,14 @@ def handle (p : List Sexp) : String :=
             else if staleIterate body then "stale_label_iterate"
             else if acc.dirty && acc.implObs != acc.gmsObs then "out_param_not_reset"
             else if acc.implObs == acc.gmsObs then
+              -- the divergence is explained by the three semantic choices alone: name the first one
+              -- that is present and changes the result on its own, else the first one present
               (if hasIterateRepeat [] body && acc.iterObs != acc.specObs then "iterate_repeat_checks_until"
                else if hasRepeat body && acc.untilObs != acc.specObs then "repeat_until_null_exits"
                else if hasBareDeclare body && acc.declObs != acc.specObs then "declare_without_default_zero"
+               else if hasIterateRepeat [] body then "iterate_repeat_checks_until"
+               else if hasRepeat body then "repeat_until_null_exits"
+               else if hasBareDeclare body then "declare_without_default_zero"
                else "-")
             else "-"
           answer implStr specStr region
